@@ -178,6 +178,7 @@ pub fn profile(name: &str) -> Profile {
             p.w = [50, 22, 5, 0, 0, 2, 0, 3, 2, 6, 3, 5, 0, 0, 2];
             p.steps = (15, 35);
             p.commit_after_update = 15;
+            p.doc.charcode = true;
         }
         "kind" => {
             // C04 kind-change profile
